@@ -389,6 +389,20 @@ Out run_case(const Spec& s) {
         o.bin("queries", queries); if (truncated) o.bin("cases_with_truncated_queries");
         o.nt = !placed.empty() && queries > 0;
     }
+    // ---- interleaved use: query, place (by voxel id as the contact model does, or by position), query the same point again --------------
+    // a neighbourhood query must reflect every object stored so far, whatever the order of queries and placements
+    if constexpr (!single_slot((G*)nullptr)) { if (o.open()) {
+        long probes = 0;
+        for (size_t i = 0; i < NP && probes < 6; i++) {
+            if (!usable[i]) continue; const Pt& p = s.pts[i]; probes++;
+            auto before = g.get_neighborhood(p.x[0], p.x[1], p.x[2]); long nb0 = 0; for (const T& v : before) { (void)v; nb0++; }
+            const T fresh = (T)(20000 + probes); const bool by_id = (pr.u64() & 1) != 0;
+            if (by_id) g.place_object(fresh, g.get_voxel_index(p.x[0], p.x[1], p.x[2])); else g.place_object(fresh, p.x[0], p.x[1], p.x[2]);
+            auto after = g.get_neighborhood(p.x[0], p.x[1], p.x[2]); bool seen = false; long nb1 = 0; for (const T& v : after) { nb1++; if (v == fresh) seen = true; }
+            o.bin(by_id ? "interleaved_place_by_voxel_id_then_requery" : "interleaved_place_by_position_then_requery");
+            if (!seen || nb1 != nb0 + 1) { o.viol(std::string("neighbour_missed:placed_after_a_query_") + (by_id ? "by_voxel_id" : "by_position"), "an object stored in the voxel of the query point after a first query is not returned by the next query of the same point", pt_json(s, p, idx[i], nb)); break; }
+        }
+    } }
     o.bin("placed_objects", (long)placed.size());
     for (int k = 0; k < 4; k++) { if (c_idx_geom[k]) o.bin(std::string("index_checked:") + GEOM[k], c_idx_geom[k]); if (c_placed_geom[k]) o.bin(std::string("placed:") + GEOM[k], c_placed_geom[k]);
         if (c_query_geom[k]) o.bin(std::string("query:") + GEOM[k], c_query_geom[k]); }
